@@ -3670,7 +3670,11 @@ func (b *SystemBackend) handleWrappingRewrap(ctx context.Context, req *logical.R
 		if err != nil {
 			return nil, fmt.Errorf("error decrementing wrapping token's use-count: %w", err)
 		}
-		defer b.Core.tokenStore.revokeOrphan(ctx, token)
+		// Revoke by the stored ID: the token from the request body is
+		// usually in its server side consistent form, which revokeOrphan
+		// does not resolve, and the old wrapping token and its cubbyhole
+		// would stay behind.
+		defer b.Core.tokenStore.revokeOrphan(ctx, te.ID)
 	}
 
 	// Fetch the original TTL
